@@ -94,7 +94,7 @@ def build_coq():
             rc, out = sh("coq_makefile -f _CoqProject -o Makefile", cwd=COQ, timeout=120)
             if rc != 0:
                 return False, out
-        rc, out = sh("timeout 1500 make -j16", cwd=COQ, timeout=1600)
+        rc, out = sh("timeout 1500 make -k -j16", cwd=COQ, timeout=1600)   # -k: everything that still checks is built
         return rc == 0, out
 
 
@@ -293,8 +293,14 @@ def decide(pid, tier, seed):
     known_hits = {}
     skipped = 0
     tier_eff = tier
-    if okh and okc:
+    judge = {"engine": "EngineCheck", "fe": "EngineCheck", "modes": "EngineCheck", "builder": "EngineCheck", "purity": "EngineCheck",
+             "preds": "SatCheck", "numeric": "SatCheck", "http": "SatCheck", "helpers": "SatCheck2", "messages": "SatCheck3",
+             "pools": "EngineCheck", "dyn": "SatCheck4"}
+    if okh:
         for fam in cfg["families"]:
+            if not os.path.exists(os.path.join(COQ, "Corr", judge.get(fam["family"], "EngineCheck") + ".vo")):
+                proof_broken.append("the judge of family %s does not compile; its cases cannot be evaluated" % fam["name"])
+                continue
             r = run_family(pid, fam, tier_eff, seed)
             fam_reports.append(r)
             meta = r["meta"]
